@@ -55,12 +55,13 @@ def _sim_cfg(name):
 
 def plan(tier, seed):
     """list of TLC design runs: (tag, kwargs for tlc.run, exhaustive?)"""
-    bfs = lambda cfg, **kw: (cfg, dict(cfg='MCMatrixADT_{}.cfg'.format(cfg), coverage=True, workers=2, **kw), True)
+    # action coverage (-coverage costs ~35%) is collected on the small configurations, which together take every action
+    bfs = lambda cfg, cov=True, **kw: (cfg, dict(cfg='MCMatrixADT_{}.cfg'.format(cfg), coverage=cov, workers=2, **kw), True)
     sim = lambda cfg, num, depth=80: (cfg, dict(cfg_text=_sim_cfg('MCMatrixADT_{}.cfg'.format(cfg)), simulate=dict(num=num), depth=depth,
                                                 seed=seed, workers=4, timeout=840), False)
     if tier == 'quick':
-        return [bfs('asm'), bfs('ops1'), bfs('subsub'), bfs('block'), sim('sim', 30), sim('block_sim', 12)]
-    return [bfs('asm'), bfs('asm_big', timeout=1500, heap='8g'), bfs('ops1'), bfs('ops2', timeout=1500, heap='8g'), bfs('subsub_big'), bfs('block'),
+        return [bfs('quick'), bfs('subsub'), sim('sim', 20), sim('block_sim', 10)]
+    return [bfs('asm', cov=False), bfs('asm_big', cov=False, timeout=1500, heap='8g'), bfs('ops1'), bfs('ops2', cov=False, timeout=1500, heap='8g'), bfs('subsub_big'), bfs('block'),
             sim('sim', 400), sim('sim_deep', 250, depth=120), sim('block_sim', 250)]
 
 
@@ -259,7 +260,7 @@ class Replayer:
         else:
             k = json.dumps(entry, sort_keys=True)
             if k not in self.table:
-                self.table[k] = (entry, dict(backend=b, op=opname, form=beh['form'], dt=beh['dt'], e=e))
+                self.table[k] = (entry, dict(backend=b, op=opname, form=beh['form'], dt=beh['dt'], e=e), beh)
         return True
 
     def replay(self, beh):
@@ -406,7 +407,7 @@ def check_exports(rep, table):
     os.makedirs(WORKROOT, exist_ok=True)
     path = os.path.join(WORKROOT, 'exports-{}.json'.format(rep.tier))
     with open(path, 'w') as f:
-        json.dump([e for e, ctx in entries], f)
+        json.dump([e[0] for e in entries], f)
     res = _tlc('MatrixExport', 'MatrixExport.cfg', tag='c15-{}-exports'.format(rep.tier), workers=4, env=dict(VF_TABLE=path), deadlock=False, timeout=1500,
                   heap='8g' if rep.tier != 'quick' else '4g')
     if res.violated:
@@ -417,12 +418,12 @@ def check_exports(rep, table):
         rep.add_tlc(res)
     rep.extra['export_table_entries'] = len(entries)
     for v in res.emitted:
-        entry, ctx = entries[v['id'] - 1]
+        entry, ctx, beh = entries[v['id'] - 1]
         for kind in ('csr', 'coo'):
             if not v[kind]:
                 rep.violation('{}:export-{}:contract'.format(ctx['backend'], kind),
                               'export("{}") of a matrix created by {} violates the export contract / does not denote the predicted matrix'.format(kind, ctx['op']),
-                              dict(context=ctx, predicted_cells=entry['c'], export=entry[kind], entry=entry))
+                              dict(backend=ctx['backend'], context=ctx, predicted_cells=entry['c'], export=entry[kind], behaviour=beh))
 
 
 def replay(path):
@@ -433,12 +434,9 @@ def replay(path):
     data = rec.get('data') or {}
     rep = Report('C15', 'replay', 0)
     table = {}
-    if 'behaviour' in data:
-        with matrix.backend(data['backend']):
-            Replayer(rep, data['backend'], matrix, table).replay(data['behaviour'])
-    else:   # export contract finding: the table entry itself
-        table['x'] = (data['entry'], data['context'])
-    check_exports(rep, table)
+    with matrix.backend(data['backend']):
+        Replayer(rep, data['backend'], matrix, table).replay(data['behaviour'])
+    check_exports(rep, table)     # the exports of the re-created objects go through MatrixExport again
     for v in rep.violations:
         print('REPRODUCED key={} what={}'.format(v['key'], v['what']))
     hit = any(v['key'] == rec.get('key') for v in rep.violations)
@@ -448,8 +446,11 @@ def replay(path):
 
 def run(rep):
     from nutils import matrix
+    import glob
     import time
     os.makedirs(WORKROOT, exist_ok=True)
+    for old in glob.glob(os.path.join(tlc.VERIF, 'replays', 'C15', '{}-{}-*.json'.format(rep.tier, rep.seed))):
+        os.unlink(old)    # replay files of an earlier run of this tier/seed
     t0 = time.time()
     behaviours = run_design(rep)
     t1 = time.time()
@@ -481,9 +482,14 @@ def run(rep):
     rep.extra['behaviours'] = len(behaviours)
     rep.extra['behaviours_rejected_by_model'] = sum(1 for b in behaviours if b['verdict'] != 'accepted')
     rep.extra['matrix_objects_checked'] = {r.bname: r.steps for r in replayers}
-    rep.constants['MatrixADT'] = dict(quick='wild CSR/COO: m,n<=2, nnz<=2, col in -1..n; well-formed: shapes 0..2 x 0..2 (nnz<=4), ops depth 1 exhaustive, '
-                                            'submatrix pairs exhaustive on 2x2, blocks <=2x2 of <=1x1 exhaustive; simulation depth 4 up to 4x2/3x3',
-                                      thorough='wild CSR nnz<=3; shapes 0..3 x 0..3; ops depth 2 exhaustive on 2x2; simulation depth 6')
+    rep.constants['MatrixADT'] = dict(quick='arbitrary CSR: m,n<=2, nnz<=2, rowptr entries 0..2, col in -1..2; arbitrary COO: row in -1..2, col in -1..1; '
+                                            'well-formed CSR/COO/empty/diag/eye: shapes 0..2 x 0..2 (nnz<=4, float and complex, explicit zeros); '
+                                            'every single operation on every well-formed matrix with nnz<=3; all pairs of submatrix selections on full 2x2; '
+                                            'all block layouts <=2x2 blocks of <=1x1; simulation: 4 operations on shapes up to 3x3/4x2, blocks up to 2x2',
+                                      thorough='arbitrary CSR nnz<=3; well-formed shapes 0..3 x 0..3; all sequences of 2 operations on 2x2 (nnz=3); '
+                                               'submatrix pairs on 2x2 with nnz 2..4; simulation with 4 and 6 operations',
+                                      exhaustive_configs=[t for t, kw, exh in plan(rep.tier, rep.seed) if exh],
+                                      simulation_configs=[t for t, kw, exh in plan(rep.tier, rep.seed) if not exh])
     rep.rule = ('case = one complete behaviour of MatrixADT (input form, dtype, input data, model verdict and reasons, operation sequence); '
                 'non-trivial = the input has at least one stored entry; each is replayed on every backend and every created matrix is '
                 'compared with the predicted denotation and observations')
